@@ -217,7 +217,7 @@ func TestVerifC05Decode(t *testing.T) {
 	c := edwards.Ed448Curve
 	vlib.Check(t, vlib.N(1500, 15000), func(t *rapid.T) {
 		var b []byte
-		kind := rapid.SampledFrom([]string{"valid", "valid+junk", "valid+overlong", "y-random", "y+p", "x=0-sign", "short"}).Draw(t, "kind")
+		kind := rapid.SampledFrom([]string{"valid", "valid+junk", "valid+overlong", "y-random", "y+p", "x=0-sign", "short", "small-order", "y-near-p", "y=2^k-1"}).Draw(t, "kind")
 		k, _ := c05Reduced(t, "k")
 		if k.BitLen() > 64 {
 			k.Rsh(k, uint(k.BitLen()-rapid.IntRange(1, 64).Draw(t, "bits")))
@@ -249,6 +249,20 @@ func TestVerifC05Decode(t *testing.T) {
 			b = c.EncodeRaw(y, 1)
 		case "short":
 			b = valid[:rapid.IntRange(0, 56).Draw(t, "len")]
+		case "small-order":
+			T := c.SmallOrderPoints()
+			b = c.Encode(T[rapid.IntRange(0, len(T)-1).Draw(t, "i")])
+		case "y-near-p":
+			// p-1, p-2, ...: limbs of all ones; the reference says which of them are points
+			y := new(big.Int).Sub(c.P, big.NewInt(int64(rapid.IntRange(1, 64).Draw(t, "d"))))
+			b = c.EncodeRaw(y, uint(rapid.IntRange(0, 1).Draw(t, "sign")))
+		case "y=2^k-1":
+			y := new(big.Int).Lsh(big.NewInt(1), uint(rapid.IntRange(1, 448).Draw(t, "k2")))
+			y.Sub(y, big.NewInt(int64(rapid.IntRange(1, 3).Draw(t, "d2"))))
+			if y.BitLen() > 448 {
+				y.SetInt64(1)
+			}
+			b = c.EncodeRaw(y, uint(rapid.IntRange(0, 1).Draw(t, "sign")))
 		}
 		vlib.Eval(sub)
 		var P *Point
